@@ -37,6 +37,90 @@ Qed.
 Lemma names_of_length n : length (names_of n) = n.
 Proof. unfold names_of. rewrite map_length, seq_length. reflexivity. Qed.
 
+(** ** has_dup (the duplicate check of the repaired LoadFromDisk) *)
+Lemma existsb_eqb_In x l : existsb (N.eqb x) l = true <-> In x l.
+Proof.
+  rewrite existsb_exists. split.
+  - intros (y & Hy & E). apply N.eqb_eq in E. subst y. exact Hy.
+  - intros H. exists x. split; [exact H|apply N.eqb_refl].
+Qed.
+
+Lemma has_dup_false_NoDup l : NoDup l -> has_dup l = false.
+Proof.
+  induction 1 as [|x l Hx Hnd IH]; cbn [has_dup]; [reflexivity|].
+  rewrite IH, orb_false_r.
+  destruct (existsb (N.eqb x) l) eqn:E; [|reflexivity].
+  apply existsb_eqb_In in E. contradiction.
+Qed.
+
+Lemma has_dup_false_iff l : has_dup l = false <-> NoDup l.
+Proof.
+  split; [|apply has_dup_false_NoDup].
+  induction l as [|x l IH]; cbn [has_dup]; intros H; constructor.
+  - apply orb_false_elim in H. destruct H as [H _]. intros Hin.
+    apply existsb_eqb_In in Hin. congruence.
+  - apply IH. apply orb_false_elim in H. apply H.
+Qed.
+
+Lemma has_dup_true_iff l : has_dup l = true <-> ~ NoDup l.
+Proof.
+  rewrite <- has_dup_false_iff. destruct (has_dup l); split; congruence.
+Qed.
+
+Lemma has_dup_count_occ l :
+  has_dup l = true <-> exists x, (count_occ N.eq_dec l x >= 2)%nat.
+Proof.
+  induction l as [|y r IH]; cbn [has_dup].
+  - split; [discriminate|]. intros (x & H). cbn in H. lia.
+  - rewrite orb_true_iff, IH, existsb_eqb_In. split.
+    + intros [Hin|(x & Hx)].
+      * exists y. rewrite count_occ_cons_eq by reflexivity.
+        apply (count_occ_In N.eq_dec) in Hin. lia.
+      * exists x. destruct (N.eq_dec y x) as [E|E].
+        -- rewrite count_occ_cons_eq by exact E. lia.
+        -- rewrite count_occ_cons_neq by exact E. exact Hx.
+    + intros (x & Hx). destruct (N.eq_dec y x) as [E|E].
+      * left. subst y. rewrite count_occ_cons_eq in Hx by reflexivity.
+        apply (count_occ_In N.eq_dec). lia.
+      * right. exists x. rewrite count_occ_cons_neq in Hx by exact E. exact Hx.
+Qed.
+
+Lemma has_dup_true_nth_lt : forall l i j x, (i < j)%nat ->
+  nth_error l i = Some x -> nth_error l j = Some x -> has_dup l = true.
+Proof.
+  induction l as [|y r IH]; intros i j x Hij Hi Hj; [destruct i; discriminate|].
+  cbn [has_dup]. destruct j as [|j]; [lia|]. cbn [nth_error] in Hj.
+  destruct i as [|i]; cbn [nth_error] in Hi.
+  - inversion Hi; subst y. apply nth_error_In in Hj.
+    apply existsb_eqb_In in Hj. rewrite Hj. reflexivity.
+  - rewrite (IH i j x) by (try lia; assumption). apply orb_true_r.
+Qed.
+
+Lemma has_dup_true_nth l i j x : i <> j ->
+  nth_error l i = Some x -> nth_error l j = Some x -> has_dup l = true.
+Proof.
+  intros Hij Hi Hj. destruct (Nat.lt_total i j) as [H|[H|H]]; [|contradiction|].
+  - exact (has_dup_true_nth_lt l i j x H Hi Hj).
+  - exact (has_dup_true_nth_lt l j i x H Hj Hi).
+Qed.
+
+Lemma NoDup_map_inj {A B} (f : A -> B) l :
+  (forall a b, f a = f b -> a = b) -> NoDup l -> NoDup (map f l).
+Proof.
+  intros Hinj. induction 1 as [|x l Hx Hnd IH]; cbn [map]; constructor; [|exact IH].
+  intros Hin. apply in_map_iff in Hin. destruct Hin as (y & Ey & Hy).
+  apply Hinj in Ey. subst y. contradiction.
+Qed.
+
+Lemma names_of_NoDup n : NoDup (names_of n).
+Proof.
+  unfold names_of. apply NoDup_map_inj; [intros a b; apply Nat2N.inj|apply seq_NoDup].
+Qed.
+
+(** what StoreToDisk writes never names a file twice *)
+Lemma has_dup_names_of n : has_dup (names_of n) = false.
+Proof. apply has_dup_false_NoDup, names_of_NoDup. Qed.
+
 (** ** open_all *)
 Lemma open_all_spec d names cs :
   map (d_file d) names = map Some cs -> open_all d names = Some cs.
@@ -204,6 +288,7 @@ Lemma load_dir_intact shards : good_shards shards ->
   load_dir crc 1 (stored_dir crc shards) false = LOk (concat shards).
 Proof.
   intros HG. unfold load_dir, stored_dir. cbn [d_files d_cks].
+  rewrite has_dup_names_of.
   rewrite map_length, names_of_length, Nat.eqb_refl. cbn [negb].
   rewrite open_all_stored, read_shards_stored by exact HG.
   rewrite stored_cks_ok, stored_forallb, stored_items. reflexivity.
@@ -214,6 +299,7 @@ Lemma load_dir_nocks shards : good_shards shards ->
   = LOk (concat shards).
 Proof.
   intros HG. unfold load_dir. cbn [d_files d_cks].
+  rewrite has_dup_names_of.
   rewrite open_all_stored, read_shards_stored by exact HG.
   rewrite stored_forallb, stored_items. reflexivity.
 Qed.
@@ -237,6 +323,7 @@ Proof.
   intros shards k items n HG Hk Hn.
   unfold load_data. cbn [i_version i_data]. unfold load_dir, replace_file, stored_dir.
   cbn [d_files d_cks d_file].
+  rewrite has_dup_names_of.
   destruct (negb _); [reflexivity|].
   match goal with |- context [open_all ?d ?ns] => destruct (open_all d ns) as [cs|] eqn:E end;
     [|reflexivity].
@@ -254,6 +341,7 @@ Proof.
   intros shards k HG Hk.
   unfold load_data. cbn [i_version i_data]. unfold load_dir, replace_file, stored_dir.
   cbn [d_files d_cks d_file].
+  rewrite has_dup_names_of.
   destruct (negb _); [reflexivity|].
   rewrite (open_all_none _ _ (N.of_nat k)); [reflexivity| |].
   - eapply nth_error_In. apply nth_error_names_of. exact Hk.
@@ -265,8 +353,10 @@ Theorem manifest_damage : stmt_manifest_damage crc.
 Proof.
   intros shards HG d. subst d. unfold stored_dir. cbn [d_files d_cks d_file].
   repeat split; try reflexivity.
+  - unfold load_data. cbn [i_version i_data]. unfold load_dir.
+    cbn [d_files d_cks]. rewrite has_dup_names_of. reflexivity.
   - intros cks Hlen. unfold load_data. cbn [i_version i_data]. unfold load_dir.
-    cbn [d_files d_cks]. rewrite names_of_length.
+    cbn [d_files d_cks]. rewrite has_dup_names_of, names_of_length.
     destruct (Nat.eqb_spec (length cks) (length shards)); [contradiction|]. reflexivity.
   - unfold load_data. cbn [i_version i_data]. apply load_dir_nocks, HG.
 Qed.
@@ -278,7 +368,7 @@ Proof.
   - left. reflexivity.
   - left. reflexivity.
   - right. unfold stored_dir. cbn [d_files d_file]. apply load_dir_nocks, HG.
-  - left. reflexivity.
+  - left. unfold load_dir, stored_dir. cbn [d_files d_cks]. rewrite has_dup_names_of. reflexivity.
   - right. apply load_dir_intact, HG.
 Qed.
 
@@ -288,6 +378,7 @@ Proof.
   intros shards k j itemsk itemsj HG Hk Hj Hne d names'. subst d names'.
   unfold load_data. cbn [i_version i_data]. unfold load_dir, stored_dir.
   cbn [d_files d_cks d_file].
+  destruct (has_dup _); [reflexivity|].
   destruct (negb _); [reflexivity|].
   match goal with |- context [open_all ?d ?ns] => destruct (open_all d ns) as [cs|] eqn:E end;
     [|reflexivity].
@@ -306,6 +397,59 @@ Proof.
     rewrite (read_shard_file itemsj (good_nth _ _ _ HG Hj)). reflexivity.
 Qed.
 
+(** ** duplicate manifest entries (repair D19): refused whatever the checksums and the files are *)
+Theorem duplicate_names_rejected : forall v names cks file optional,
+  has_dup names = true ->
+  load_dir crc v (mkDir (POk names) cks file) optional = LErr.
+Proof.
+  intros v names cks file optional H. unfold load_dir. cbn [d_files]. rewrite H. reflexivity.
+Qed.
+
+Theorem duplicate_names_rejected_count : forall v names cks file optional,
+  (exists x, (count_occ N.eq_dec names x >= 2)%nat) ->
+  load_dir crc v (mkDir (POk names) cks file) optional = LErr.
+Proof.
+  intros v names cks file optional H. apply duplicate_names_rejected, has_dup_count_occ, H.
+Qed.
+
+Theorem duplicate_names_rejected_data : forall ver names cks file delta,
+  has_dup names = true ->
+  load_data crc (mkImg ver (mkDir (POk names) cks file) delta) = LErr.
+Proof.
+  intros ver names cks file delta H. unfold load_data. cbn [i_version i_data].
+  destruct ver; [apply duplicate_names_rejected, H|reflexivity|apply duplicate_names_rejected, H].
+Qed.
+
+Theorem duplicate_names_rejected_delta : forall ver names cks file data,
+  has_dup names = true ->
+  load_delta crc (mkImg ver data (mkDir (POk names) cks file)) = LErr.
+Proof.
+  intros ver names cks file data H. unfold load_delta. cbn [i_version i_delta].
+  destruct ver; [apply duplicate_names_rejected, H|reflexivity|apply duplicate_names_rejected, H].
+Qed.
+
+Lemma redirect_has_dup n k j : (k < n)%nat -> (j < n)%nat -> k <> j ->
+  has_dup (map (fun x => if x =? N.of_nat k then N.of_nat j else x) (names_of n)) = true.
+Proof.
+  intros Hk Hj Hne. apply (has_dup_true_nth _ k j (N.of_nat j) Hne).
+  - rewrite nth_error_map, nth_error_names_of by exact Hk.
+    cbn [option_map]. rewrite N.eqb_refl. reflexivity.
+  - rewrite nth_error_map, nth_error_names_of by exact Hj.
+    cbn [option_map]. destruct (N.eqb_spec (N.of_nat j) (N.of_nat k)) as [E|E]; [|reflexivity].
+    apply Nat2N.inj in E. congruence.
+Qed.
+
+(** a redirected manifest entry is detected without any hypothesis on the checksums *)
+Theorem redirect_detected_any : forall shards k j, good_shards shards ->
+  (k < length shards)%nat -> (j < length shards)%nat -> k <> j ->
+  let d := stored_dir crc shards in
+  let names' := map (fun x => if x =? N.of_nat k then N.of_nat j else x) (names_of (length shards)) in
+  load_data crc (mkImg (POk 1) (mkDir (POk names') (d_cks d) (d_file d)) empty_dir) = LErr.
+Proof.
+  intros shards k j _ Hk Hj Hne d names'. subst d names'.
+  apply duplicate_names_rejected_data, redirect_has_dup; assumption.
+Qed.
+
 End Proofs.
 
 Print Assumptions truncation_detected.
@@ -315,3 +459,10 @@ Print Assumptions missing_shard.
 Print Assumptions manifest_damage.
 Print Assumptions crash_safe.
 Print Assumptions redirect_detected.
+Print Assumptions has_dup_names_of.
+Print Assumptions has_dup_count_occ.
+Print Assumptions duplicate_names_rejected.
+Print Assumptions duplicate_names_rejected_count.
+Print Assumptions duplicate_names_rejected_data.
+Print Assumptions duplicate_names_rejected_delta.
+Print Assumptions redirect_detected_any.
